@@ -81,6 +81,7 @@ AIMS = {
         "negative bound)."
     ),
 }
+AIMS["10"] = AIMS["9"]
 
 
 def main():
